@@ -46,6 +46,31 @@ PROGRAMS = [
     ("from typing import Union, Optional\ndef g() -> bool:\n    return False\ndef f(x: Union[int, str, None]):\n    if (isinstance(x, int) or g()) and g():\n        return x\n    else:\n        return x\n", [(1,), ("s",), (None,)]),
 ]
 
+# programs about narrowing (C02 runs these too): a string argument starting with "=" is evaluated in the program's own namespace
+NARROWING_PROGRAMS = [
+    # comparisons with an enum member when the declared type is wider than that enum
+    # (stdlib enums: the checker imports the program as its own module, so classes defined in the program would be different objects at run time)
+    ("import enum\nfrom uuid import SafeUUID\nfrom py_compile import PycInvalidationMode\n"
+     "def f(x: enum.Enum, y: object, z: SafeUUID):\n    if x != SafeUUID.safe:\n        a = x\n    else:\n        a = x\n    if y != SafeUUID.safe:\n        b = y\n    else:\n        b = y\n"
+     "    if z is not SafeUUID.safe:\n        c = z\n    else:\n        c = z\n    if x == SafeUUID.unsafe:\n        d = x\n    else:\n        d = x\n    return (a, b, c, d)\n",
+     [("=SafeUUID.safe", "=SafeUUID.safe", "=SafeUUID.safe"), ("=SafeUUID.unsafe", "=SafeUUID.unsafe", "=SafeUUID.unsafe"), ("=PycInvalidationMode.TIMESTAMP", "a string", "=SafeUUID.unknown"),
+      ("=PycInvalidationMode.CHECKED_HASH", 42, "=SafeUUID.safe")]),
+    ("def f(p: bool, q: object):\n    if p != True:\n        a = p\n    else:\n        a = p\n    if q != True:\n        b = q\n    else:\n        b = q\n    if q is not None:\n        c = q\n    else:\n        c = q\n    return (a, b, c)\n",
+     [(True, True), (False, False), (True, 2), (False, None), (True, "s")]),   # (q = 1 would be known finding D54: 1 == True)
+    # len() comparisons on a tuple with an unpacked part
+    ("def f(a: int, rest: list):\n    t = (a, *rest)\n    if len(t) == 2:\n        r = t\n    else:\n        r = t\n    if len(t) > 2:\n        s = t\n    else:\n        s = t\n    if len(t) != 2:\n        u = t\n    else:\n        u = t\n"
+     "    if 1 < len(t):\n        v = t\n    else:\n        v = t\n    return (r, s, u, v)\n",
+     [(1, []), (1, ["a"]), (1, ["a", "b"])]),
+    # narrowing of nested composites is reset by an assignment to an ancestor composite
+    ("from typing import List, Optional\ndef f(x: List[List[Optional[int]]], y: List[Optional[int]]):\n    if x[0][0] is None:\n        x[0] = y\n        return x[0][0]\n    return x[0][0]\n",
+     [([[None]], [3]), ([[None]], [None]), ([[1]], [2])]),
+    # unpacking a tuple with an unpacked part into plain and starred targets
+    ("def f(a: int, rest: list, fl: float, by: bytes):\n    t = (a, *rest, fl, by)\n    if len(t) == 3:\n        p, q, r = t\n        return (p, q, r)\n    h, *m, z = t\n    return (h, m, z)\n",
+     [(1, [], 1.5, b"b"), (1, ["s"], 2.5, b"c"), (1, ["s", "t"], 0.5, b"")]),
+    ("def f(rest: list, s: str, by: bytes):\n    t = (*rest, s, by)\n    if len(t) == 2:\n        p, q = t\n        return (p, q)\n    *m, y, z = t\n    return (m, y, z)\n",
+     [([], "s", b"b"), ([1], "s", b"b"), ([1, 2], "s", b"b")]),
+]
+
 KINDS = (ast.Name, ast.Subscript, ast.Call, ast.BinOp, ast.IfExp, ast.BoolOp, ast.Compare)
 
 
@@ -115,12 +140,12 @@ def in_gamma(o, v, ctx):
     return v.is_assignable(KnownValue(o), ctx)
 
 
-def search():
+def search(programs=None):
     from pyanalyze.ast_annotator import annotate_code
     from pyanalyze.checker import Checker
     from pyanalyze.value import KnownValue
     ctx = Checker()
-    for src, arglists in PROGRAMS:
+    for src, arglists in (PROGRAMS + NARROWING_PROGRAMS if programs is None else programs):
         with contextlib.redirect_stderr(io.StringIO()), contextlib.redirect_stdout(io.StringIO()):
             tree = annotate_code(src)
         ins = _Instrument()
@@ -131,6 +156,7 @@ def search():
         exec(compile(tree2, "<instrumented>", "exec"), ns)
         for args in arglists:
             del seen[:]
+            args = tuple(eval(a[1:], ns) if isinstance(a, str) and a.startswith("=") else a for a in args)
             ns["f"](*args)
             from replay.util import count, sample
             count(evaluations=len(seen), distinct=1)
@@ -162,6 +188,67 @@ def _strip(node):
     return S().visit(copy.deepcopy(node))
 
 
+def search_unpack():
+    """_unpack_sequence_value against the segmentation meaning of a SequenceValue: every concrete sequence the value admits (each unpacked
+    member repeated 0..k times) that has the length the targets demand puts, at every target, an element whose member type the answer contains"""
+    import itertools
+    from pyanalyze.value import (_unpack_sequence_value, SequenceValue, TypedValue, CanAssignError, GenericValue, flatten_values)
+    from replay.util import count, sample
+    tys = [int, str, bytes, list, dict]
+
+    def contains(r, v):
+        return r == v or v in list(flatten_values(r))
+
+    for n in range(0, 5):
+        for flags in itertools.product([False, True], repeat=n):
+            members = [(flags[k], TypedValue(tys[k])) for k in range(n)]
+            sv = SequenceValue(tuple, members)
+            for T in range(0, 6):
+                for P in (None, 0, 1, 2):
+                    r = _unpack_sequence_value(sv, T, P)
+                    count(1, 0 if isinstance(r, CanAssignError) else 1)
+                    if isinstance(r, CanAssignError):
+                        continue
+                    sample(f"_unpack_sequence_value({sv}, {T}, {P}) -> {[str(x) for x in r]}")
+                    want = T if P is None else T + 1 + P
+                    if len(r) != want:
+                        return f"_unpack_sequence_value({sv}, {T}, {P}) returns {len(r)} values for {want} targets"
+                    need = T + (P or 0)
+                    reps = [range(0, need + 2) if f else (1,) for f in flags]
+                    for rep in itertools.product(*reps):
+                        shape = [k for k in range(n) for _ in range(rep[k])]
+                        if (P is None and len(shape) != T) or (P is not None and len(shape) < T + P):
+                            continue
+                        for pos, src in enumerate(shape):
+                            v = members[src][1]
+                            if P is None or pos < T:
+                                got = r[pos]
+                                ok = contains(got, v)
+                            elif pos >= len(shape) - P:
+                                got = r[len(r) - (len(shape) - pos)]
+                                ok = contains(got, v)
+                            else:
+                                got = r[T]
+                                if isinstance(got, SequenceValue):
+                                    ok = any(contains(m, v) for _, m in got.members)
+                                elif isinstance(got, GenericValue):
+                                    ok = contains(got.args[0], v)
+                                else:
+                                    ok = False
+                            if not ok:
+                                conc = [tys[k].__name__ for k in shape]
+                                return (f"_unpack_sequence_value({sv}, target_length={T}, post_starred_length={P}) -> {[str(x) for x in r]}: a concrete sequence with element types {conc} "
+                                        f"is admitted by the value, but its element {pos} ({tys[src].__name__}) does not belong to the value inferred for its target ({got})")
+    return None
+
+
+def r_unpack(rec):
+    msg = search_unpack()
+    if msg:
+        return True, msg
+    return False, "every admitted concrete sequence is unpacked soundly (members <= 4, targets <= 5 + 1 + 2)"
+
+
 def r_c01(rec):
     msg = search()
     if msg:
@@ -169,7 +256,14 @@ def r_c01(rec):
     return False, "every recorded runtime value belongs to its inferred type on the program corpus"
 
 
-REPLAYERS = {"C01.bounded": r_c01, "pyanalyze.implementation._sequence_common_getitem_impl.inner": r_c01}
+def r_narrowing_programs(rec):
+    msg = search(NARROWING_PROGRAMS)
+    if msg:
+        return True, msg
+    return False, "in every narrowed branch of the narrowing programs the runtime value belongs to the narrowed type"
+
+
+REPLAYERS = {"C02.programs": r_narrowing_programs, "C01.unpack": r_unpack, "pyanalyze.value._unpack_sequence_value": r_unpack, "C01.bounded": r_c01, "pyanalyze.implementation._sequence_common_getitem_impl.inner": r_c01}
 
 if __name__ == "__main__":
     print(search())
